@@ -102,6 +102,7 @@ class ParseContext:
         self.table_infos = {}
         self.parser_macros_plugins = {}
         self.random_references = []
+        self.files_being_parsed = []
 
     def line_num(self, obj=None) -> Dict:
         if not obj:
@@ -604,9 +605,18 @@ def parse_included_file(
         raise exc.DataGenError(
             f"Cannot load include file {inclusion_path}", **linenum._asdict()
         )
-    with inclusion_path.open() as f:
-        incl_objects = parse_file(f, context)
-        return incl_objects
+    resolved = inclusion_path.resolve()
+    if resolved in context.files_being_parsed:
+        raise exc.DataGenError(
+            f"Include file {inclusion_path} includes itself", **linenum._asdict()
+        )
+    context.files_being_parsed.append(resolved)
+    try:
+        with inclusion_path.open() as f:
+            incl_objects = parse_file(f, context)
+            return incl_objects
+    finally:
+        context.files_being_parsed.pop()
 
 
 def parse_included_files(path: Path, data: List, context: ParseContext):
